@@ -18,8 +18,17 @@ use std::result::Result;
 type Fails = Vec<(String, Value)>;
 
 fn decode<B: BoxIO>(bytes: &[u8]) -> Result<(B, u64), String> {
+    decode_chunked::<B>(bytes, 0)
+}
+
+/// `chunk` > 0: the source hands out at most 1..=chunk bytes per read call (what a BufReader,
+/// a pipe or a socket do); a decoder must not depend on reads being filled completely.
+fn decode_chunked<B: BoxIO>(bytes: &[u8], chunk: usize) -> Result<(B, u64), String> {
     let data = Rc::new(bytes.to_vec());
-    let mut r = MonReader::plain(data);
+    let ctl = crate::streams::Ctl::new();
+    ctl.chunk.set(chunk);
+    ctl.chunk_random.set(chunk > 1);
+    let mut r = MonReader::new(data, ctl);
     let res = panicmon::catch(|| {
         let h = BoxHeader::read(&mut r)?;
         let v = B::dec(&mut r, h.size)?;
@@ -130,6 +139,16 @@ fn check_c04<B: BoxIO>(c: &Case<B>, rng: &mut Rng) -> Fails {
         }
         Err(e) => f.push(("decode_failed".into(), json!({"siblings": nsib, "err": e, "bytes": hex_trunc(&bytes, 200)}))),
     }
+    // (b') the same decode from a source that returns short reads
+    let chunk = *rng.pick(&[1usize, 7, 4096]);
+    match decode_chunked::<B>(&stream, chunk) {
+        Ok((v, pos)) => {
+            if v != c.value || pos != bytes.len() as u64 {
+                f.push(("roundtrip_value_from_short_reading_source".into(), json!({"max_bytes_per_read": chunk, "pos": pos, "box_len": bytes.len(), "got": format!("{:?}", v).chars().take(400).collect::<String>(), "want": format!("{:?}", c.value).chars().take(400).collect::<String>()})));
+            }
+        }
+        Err(e) => f.push(("decode_failed_from_short_reading_source".into(), json!({"max_bytes_per_read": chunk, "err": e}))),
+    }
     // (c) converse: accepted reference bytes (also in layout variants) re-encode to a fixpoint
     let mut variants: Vec<(&str, Vec<u8>)> = vec![("reference", refenc::serialize_one(&c.refbox))];
     let mut lb = c.refbox.clone();
@@ -215,7 +234,7 @@ struct Ctx<'a> {
 }
 
 fn run_type<B: BoxIO>(cx: &mut Ctx, name: &str, nshapes: usize, gen: &dyn Fn(&mut Rng, usize) -> Case<B>, variants: &dyn Fn(&Case<B>, &mut Rng) -> Vec<(&'static str, BoxT)>) {
-    let reps = cx.args.scale(1200, 24_000);
+    let reps = cx.args.scale(1200, 12_000);
     let prop = cx.args.prop.clone();
     for shape in 0..nshapes {
         for r in 0..reps {
@@ -229,7 +248,12 @@ fn run_type<B: BoxIO>(cx: &mut Ctx, name: &str, nshapes: usize, gen: &dyn Fn(&mu
             }
             cx.rep.begin(&id);
             let mut rng = Rng::derive(cx.args.seed, hash_str(name), (shape as u64) << 20 | r);
+            crate::boxgen::set_scale(r % 32 == 31);
+            if r % 32 == 31 {
+                cx.rep.add("scale_mode_cases", 1);
+            }
             let c = gen(&mut rng, shape);
+            crate::boxgen::set_scale(false);
             let h = hash_str(&format!("{}|{}", name, c.shape));
             if c.nontrivial {
                 cx.rep.cover_nt(h);
